@@ -280,6 +280,18 @@ CHECK = Check(
             rule="whole output_vcf --no_replacement runs over C03's identifiable panels, replayed into the Lean model as in C03 – including, per _convert_haplotype call, the (start, end) stretches requested from _find_random_sample, which must be the blocks' extents (panels with exactly, and more than, the needed samples per population; blocks nested in, overlapping, abutting and equal to blocks of other haplotypes on a grid of ends): from the output genotypes every (reference haplotype, variant) pair is used at most once, or the run ends in the 'No available sample' error",
         ),
         Section(
+            name="big_panel_no_replacement",
+            theorems=["C14.disjoint_after_any_run"],
+            gen=lambda rng, tier: _c03("gen_big")(rng, tier, True),
+            impl=lambda c: _c03("impl_big")(c),
+            oracle=lambda c, o: _c03("oracle_big")(c, o),
+            setup=lambda: _c03("setup")(),
+            teardown=lambda x: _c03("teardown")(x),
+            nontrivial=lambda c, o: C.jdump(c),
+            describe=lambda c, o: f"nref={c['nref']}",
+            rule="--no_replacement over reference panels of 260-520 samples of which the model's populations hold ten (in the last columns, beyond 256): the stretches that the bookkeeping hands out sample by sample are the stretches copied only if every copied allele is one the named reference sample carries at that variant (oracle of C03/big_panel)",
+        ),
+        Section(
             name="validate_panel_size",
             theorems=["C14.validate_rejects_small_panels"],
             gen=gen_panel,
